@@ -9,6 +9,7 @@ import (
 	"regexp"
 	"strings"
 	"testing"
+	"time"
 
 	"verif/harness/ev"
 )
@@ -247,4 +248,23 @@ func (c *Ctx) FinishReplay(t *testing.T, fl *Failure) {
 	} else {
 		t.Logf("REPLAY-PASSED")
 	}
+}
+
+// Watch arms a watchdog for one case: if done is not called within limit the
+// case text is written to <VERIF_OUT>.hang.txt and the process exits with status 3
+// (a Go program cannot interrupt a computation that never yields).
+func Watch(src string, limit time.Duration) (done func()) {
+	ch := make(chan struct{})
+	go func() {
+		select {
+		case <-ch:
+		case <-time.After(limit):
+			if out := os.Getenv("VERIF_OUT"); out != "" {
+				os.WriteFile(out+".hang.txt", []byte(src), 0o644) //nolint:errcheck
+			}
+			fmt.Fprintf(os.Stderr, "WATCHDOG: case did not finish within %s:\n%s\n", limit, src)
+			os.Exit(3)
+		}
+	}()
+	return func() { close(ch) }
 }
